@@ -21,7 +21,7 @@ func init() {
 			"(R-FASTORDER) in the fast arm the fetch of child 1 cannot follow the fetch of child 2, param2[0]/param2[1] receive child 1 / child 2 (literal or fetched value) and the operator call is dominated by both. (R-CONDJUMP) in the cond arm the jump (i = scIdx, osTop = node.osTop) happens only under operator-result == true; the `if` closure returns the negation of its boolean argument (so 'jump' means 'condition false'), the `fi` closure returns constant true. (R-SCJUMP) the short-circuit jump of the main loop is taken only for a bool result b with (!b && scIfFalse) || (b && scIfTrue). " +
 			"(R-STEPRES) per arm of the main loop the pushed value is exactly the node literal / result #0 of the fetch of that very node / result #0 of the node's own operator applied in that arm, cond and event arms push nothing, the value lands in os[osTop+1] and osTop advances by one, non-error returns yield the pushed value or os[0]; (R-STEPARGS) the operator arm pops exactly childCnt and hands the operator either the two-slot buffer filled from os[osTop-childCnt+1], os[osTop-childCnt+2] (only under childCnt == 2) or a fresh childCnt-long copy of os[osTop-childCnt+1:]. " +
 			"(R-SCFLAGS, R-SCCLIMB, R-FASTLAYOUT, R-KWTYPE) every child of an and/or node gets polarity flag and jump target whatever its own kind; climbing only while the ancestor is decided by every polarity the node carries; all sites agree on the two inlined operands of a fast operator. " +
-			"NOT decided: that the jump targets skip exactly the decided operands and the untaken branch (values of the scIdx/osTop tables computed at compile time), and TryEval's visiting order.",
+			"NOT decided: that the jump targets skip exactly the decided operands and the untaken branch (values of the scIdx/osTop tables computed at compile time), and TryEval's visiting order. Round 2: (R-SCMUST) the converse of R-SCJUMP — a step result is pushed (evaluation goes on with the next operand) only if it is not a bool, or the flag that lets its value decide the parent is not set; path-sensitive in the asserted bool. (R-NODEFRESH) one node record per tree position.",
 		Run:       runC03,
 		Witnesses: c03Witnesses,
 	})
